@@ -194,9 +194,12 @@ class HObj:
     def __init__(self, cls, fields=None):
         self.cls = cls            # ClassInfo or str
         self.fields = dict(fields or {})
+        self.ns_dict = None       # argparse.Namespace: VRef of the dict holding the attributes
 
     def clone(self):
-        return HObj(self.cls, self.fields)
+        c = HObj(self.cls, self.fields)
+        c.ns_dict = self.ns_dict
+        return c
 
 
 class HBytes:
